@@ -43,13 +43,20 @@ def degenerate_gex_tasks():
     for p in (0, 1, 2, 3, 4, 5, 7, 23):
         for g in (0, 1, 2):
             out.append(('D2p', p, g))
+    # degenerate modulus with a generator of thousands of digits (anything the tool says about the group must not depend on printing it)
+    for p in (0, 1, 2):
+        for g in ('2**20000', '10**5000+1'):
+            out.append(('D2p', p, g))
+    # a group far larger than any the tool asks for (it requests at most 8192 bits)
+    for p in ('2**16384+7', '2**32768-159', '2**65536-1'):
+        out.append(('D2p', p, 2))
     return out
 
 
 def work_degenerate(chunk, st):
     for _t, p, g in chunk:
         def sc(faults, p=p, g=g):
-            srv = F._srv_D2(g=g, p=p)
+            srv = F._srv_D2(g=eval(g) if isinstance(g, str) else g, p=eval(p) if isinstance(p, str) else p)
             res = H.audit(srv, opts=['-n', '--skip-rate-test'], faults=faults)
             res.peer = srv
             return res
@@ -76,20 +83,38 @@ def banner_content_tasks():
             for proto in ('2.0', '1.99'):
                 for role in ('server', 'client'):
                     out.append(('banner', proto, prod, v, role))
+    # identification strings without any software part, and every product once more, against a server whose probes take the
+    # OpenSSH-specific paths (group exchange answering 2048 bits; an RSA key): code that inspects the software string after the handshake
+    for proto in ('2.0', '1.99'):
+        out.append(('banner', proto, None, '', 'server-gex'))
+        out.append(('banner', proto, '', '', 'server-gex'))
+        out.append(('banner', proto, None, '', 'server'))
+        out.append(('banner', proto, None, '', 'client'))
+    for prod in BANNER_PRODUCTS:
+        for v in BANNER_VERSIONS[:12]:
+            out.append(('banner', '2.0', prod, v, 'server-gex'))
     return out
 
 
 def work_banner(chunk, st):
-    lists = dict(kex=['curve25519-sha256', 'diffie-hellman-group14-sha1'], key=['ssh-ed25519', 'ssh-rsa'], enc=['aes256-ctr', '3des-cbc'], mac=['hmac-sha2-256', 'hmac-md5'])
+    lists0 = dict(kex=['curve25519-sha256', 'diffie-hellman-group14-sha1'], key=['ssh-ed25519', 'ssh-rsa'], enc=['aes256-ctr', '3des-cbc'], mac=['hmac-sha2-256', 'hmac-md5'])
     for _t, proto, prod, v, role in chunk:
-        banner = ('SSH-%s-%s%s' % (proto, prod, v)).encode('utf-8')
+        banner = ('SSH-%s-%s%s' % (proto, prod, v)).encode('utf-8') if prod is not None else ('SSH-%s' % proto).encode()
+        gexsrv = role == 'server-gex'
+        if gexsrv:
+            role = 'server'
+            lists = dict(lists0, kex=['diffie-hellman-group-exchange-sha256'] + lists0['kex'])
+        else:
+            lists = lists0
         for fmt in ('text', 'json'):
             opts = ['-n'] + (['-j'] if fmt == 'json' else [])
-            if role == 'server':
+            if role == 'server' and gexsrv:
+                res = H.audit(peer.Server(banner=banner, host_keys=peer.standard_host_keys(lists['key'], rsa_bits=2048), gex=peer.GexPolicy([2048], peer.OPENSSH), **lists), opts=opts + ['--skip-rate-test'])
+            elif role == 'server':
                 res = H.audit(peer.Server(banner=banner, host_keys=peer.standard_host_keys(lists['key']), **lists), opts=opts + ['--skip-rate-test'])
             else:
                 res = H.client_audit(peer.Client(banner=banner, **lists), opts=opts)
-            st.execution(res.world, outcome=('banner', res.status, bool(res.hang)), root=('banner', proto, prod, v, role, fmt), nontrivial=('banner', proto, prod, v, role, fmt))
+            st.execution(res.world, outcome=('banner', res.status, bool(res.hang)), root=('banner', proto, prod, v, role, gexsrv, fmt), nontrivial=('banner', proto, prod, v, role, gexsrv, fmt))
             d = {'banner': banner.decode('utf-8'), 'role': role, 'fmt': fmt, 'status': res.status, 'stdout_tail': res.stdout[-300:], 'stderr_tail': res.stderr[-300:]}
             kind = 'recognised' if prod in BANNER_PRODUCTS[:5] else 'other'
             if res.hang or res.exc or res.status not in (0, 1, 2, 3):
@@ -106,7 +131,7 @@ def work_banner(chunk, st):
                     complete = False
             if not complete or res.status != 3:
                 st.violation('banner-content:wellformed-handshake-rejected:%s' % kind, d)
-    st.sample({'banner_content': chunk[0][2] + chunk[0][3][:40], 'role': chunk[0][4]}, cap=22)
+    st.sample({'banner_content': str(chunk[0][2]) + chunk[0][3][:40], 'role': chunk[0][4]}, cap=22)
 
 
 # environment answers around the listening socket of a client audit
